@@ -19,6 +19,8 @@ Event(ev) ==
       [] ev.ev = "ConsumerDone" -> ConsumerDone
       [] ev.ev = "Release" -> WorkRelease /\ cur = ev.e /\ rc'[ev.e] = ev.count /\ (ev.fired <=> Len(fired') > Len(fired))
       [] ev.ev = "EmitDone" -> EmitDone(ev.e)
+      [] ev.ev = "FuncReject" -> InsertFail(ev.e)
+      [] ev.ev = "EmitRaised" -> EmitRaised(ev.e)
       [] ev.ev = "ObsQ" -> Len(q) = ev.qsize /\ Same
       [] ev.ev = "ObsRc" -> (\A e \in 1 .. Len(ev.rc) : rc[e] = ev.rc[e]) /\ Same
       [] ev.ev = "End" -> (ev.quiescent => Quiescent) /\ Same
